@@ -62,7 +62,17 @@ pub fn run_case(id: &str, r: &mut Rng, out: &mut String) {
     let text = run_writer(false);
     let csv = run_writer(true);
     let (Ok(Ok(model)), Ok(text), Ok(csv)) = (&model, &text, &csv) else {
-        out.push_str("impl panic one of the output modes panicked\nend\n");
+        // which mode, and whether it panicked or returned an error although the reference run
+        // (run_acb_app_to_delta_models) completed
+        let what = match (&model, &text, &csv) {
+            (Err(p), _, _) => format!("panic render-model: {}", oneline(p)),
+            (_, Err(p), _) => format!("panic text-writer: {}", oneline(p)),
+            (_, _, Err(p)) => format!("panic csv-writer: {}", oneline(p)),
+            (Ok(Err(e)), _, _) => format!("moderr render-model returned an error: {}", oneline(&format!("{:?}", e))),
+            _ => "panic ?".to_string(),
+        };
+        let bs: Vec<String> = inits.iter().map(|(s, n, c)| format!("-b {}:{}:{}", s, n, c)).collect();
+        out.push_str(&format!("impl {}\nrepro {}\nend\n", what, oneline(&format!("{}\n{}", bs.join(" "), app::txs_to_csv(&c.rows)))));
         return;
     };
     let mut secs: Vec<&String> = by_sec.keys().collect();
